@@ -30,6 +30,9 @@ m = {
 for pid in ids:
     if pid in CHECKS and pid in CLAIMED:
         c = CHECKS[pid]
+        mem = any("memcheck" in c.get(t, {}).get("flavours", []) for t in ("quick", "thorough"))
+        tech = c["technique"] + ("; plus a reduced workload under valgrind memcheck (uninitialised-value use, invalid accesses)" if mem else "")
+        note = c["level_note"] + ("; valgrind 3.19 memcheck (its reports and aborts only: oracle verdicts are not taken from that run because valgrind emulates long double with 64 bits)" if mem else "")
         m["checks"].append({
             "property_id": pid,
             "quick_cmd": "./vcheck %s quick" % pid,
@@ -38,8 +41,8 @@ for pid in ids:
             "replay_cmd_template": "./vcheck %s --replay {path}" % pid,
             "engine": "vcheck",
             "level_claimed": {"category": "exploration", "text": c["level_text"], "design_ref": c.get("design_ref", "DESIGN.md section 3, " + pid)},
-            "level_note": c["level_note"],
-            "technique": c["technique"],
+            "level_note": note,
+            "technique": tech,
         })
     else:
         m["not_applicable"].append({"property_id": pid, "reason": NOT_APPLICABLE.get(pid, "monitor not built yet; not claimed until it is calibrated silent on the unchanged tree")})
